@@ -207,6 +207,20 @@ theorem fault_identity_gpf_counterexample :
   · simp [gpfCorrect, kfCorrect, gaussLik, call, pop, anyFailed, Entry.failed]
   · simp [gpfCorrect, kfCorrect, gaussLik, call, pop]
 
+/-- The full-strength statement for the Gaussian particle correction (wrapping a Kalman
+    correction, Gaussian likelihood), kept visible: *any* consulted call reporting "unavailable"
+    ⇒ the predicted set is returned.  It is false for the code as it is: -/
+def FaultIdentityGpf : Prop :=
+  ∀ (num : Sym → Sym → Sym) (sample : Sym → Sym) (weigh : Sym → Sym → Unit → Sym) (s : Script) (p0 cin : Sym),
+    anyFailed (gpfCorrect (kfCorrect num) sample (gaussLik ()) weigh s p0 cin).log = true →
+    (gpfCorrect (kfCorrect num) sample (gaussLik ()) weigh s p0 cin).val = p0
+
+theorem fault_identity_gpf_refuted : ¬ FaultIdentityGpf := by
+  intro h
+  have hc := @fault_identity_gpf_counterexample Sym Unit
+  have h1 := (hc.1 Sym.full Sym.sampled (fun p c _ => Sym.weighed p c) () Sym.pred Sym.poison).1
+  exact hc.2 (h Sym.full Sym.sampled (fun p c _ => Sym.weighed p c) { measure := [false] } Sym.pred Sym.poison h1)
+
 /-! ### SIS: measurement acquisition fails ⇒ the correction is not attempted -/
 
 theorem sis_freeze_failure_no_correct (correct : Script → β → β → R β) (normalise : β → β)
